@@ -23,6 +23,7 @@ func c20(c *eng.Ctx, r *eng.Report) {
 		"Not decided: the sums themselves; equality of the three lookup results as values."
 	r.Assume = []string{"miner records live in the storage of ValidatorDBAddress/ProposerDBAddress only"}
 	c20Layers(c, r)
+	c20AccountLookup(c, r)
 	c20Lock(c, r)
 	c20Refund(c, r)
 	c20Keys(c, r)
@@ -62,6 +63,51 @@ func c20Layers(c *eng.Ctx, r *eng.Report) {
 			}
 		}
 		r.Check(flushes || overlays, rule, "accountObject.DataIterator:dirty-layer", c.Pos(di.Pos()), "the iterator flushes or overlays pending writes before walking the trie", "DataIterator walks ao.trie only, while setData writes cachedStorage/dirtyStorage and the trie is updated at Finalise: records written earlier in the same block are invisible to lookups by account and to iteration, although GetData (lookup by id) sees them — e.g. two MinerApply transactions in one block naming the same account both pass GetMinerIdByAccount(...) == nil")
+	}
+}
+
+// c20AccountLookup: lookup by account must see every record lookup by id sees —
+// GetMinerById returns a record whatever its status, so the by-account scan may
+// skip an iterator entry only when there is no record at all.
+func c20AccountLookup(c *eng.Ctx, r *eng.Report) {
+	const rule = "R20.1"
+	fn := c.Func("service", "(*MinerManager).GetMinerIdByAccount")
+	if !r.Anchor(fn != nil, rule, "(*MinerManager).GetMinerIdByAccount") {
+		return
+	}
+	n := 0
+	for _, s := range eng.Sites(fn) {
+		if s.Name() != "bytes.Compare" && s.Name() != "bytes.Equal" {
+			continue
+		}
+		if !strings.Contains(eng.Desc(s.Common().Args[0])+eng.Desc(s.Common().Args[1]), ".Account") {
+			continue
+		}
+		n++
+		var extra []string
+		for _, cd := range eng.CondsAt(s.Instr) {
+			d := eng.Desc(cd.V)
+			if strings.Contains(d, ".Next(") {
+				continue
+			}
+			if m, isM := cd.Cmp(); isM && m.Op == token.NEQ && (eng.IsNilConst(m.Y) || eng.IsNilConst(m.X)) {
+				v := m.X
+				if eng.IsNilConst(m.X) {
+					v = m.Y
+				}
+				if ex, isE := v.(*ssa.Extract); isE && ex.Index == 0 && strings.Contains(eng.Desc(ex.Tuple), ".Current(") {
+					continue
+				}
+				extra = append(extra, "`"+eng.Desc(v)+" != nil`")
+				continue
+			}
+			extra = append(extra, d)
+		}
+		key := fmt.Sprintf("GetMinerIdByAccount:filter#%d", n)
+		r.Check(len(extra) == 0, rule, key, c.Pos(s.Pos()), "the scan compares the account of every record the iterator yields (only record == nil is skipped)", "lookup by account skips records on an extra condition ("+strings.Join(extra, "; ")+") that lookup by id does not apply: e.g. an aborted miner is still found by id but not by account, so the same account can register a second miner")
+	}
+	if n < 2 {
+		r.Fail(rule, "GetMinerIdByAccount:filter", c.Pos(fn.Pos()), fmt.Sprintf("%d account comparisons found (2 expected, one per registry)", n))
 	}
 }
 
